@@ -24,8 +24,8 @@ CASE_TIMEOUT = {"quick": 300, "thorough": 900}
 
 
 def cases(tier):
-    out = [("pair", r) for r in range(400 if tier == "quick" else 20000)]
-    out += [("reject", r) for r in range(60 if tier == "quick" else 1500)]
+    out = [("pair", r) for r in range(400 if tier == "quick" else 100000)]
+    out += [("reject", r) for r in range(60 if tier == "quick" else 6000)]
     out += [("fos", r) for r in range(10 if tier == "quick" else 60)]
     return out
 
